@@ -76,7 +76,9 @@ TPropagate == IsEvent("propagate") /\ Propagate
 TTeeExit == IsEvent("tee_exit") /\ Ev.restored /\ ExitTee
 TIpe == IsEvent("ipe") /\ RaiseInitialParameterError
 (* python index -2 of a history of n records is record n - 1 *)
-TFallback == IsEvent("fallback") /\ Len(hist) + 1 + Ev.i >= 1 /\ FallbackTo(Len(hist) + 1 + Ev.i) /\ Ev.x = resultPoint'
+(* the record before the failing one; an earlier one only if non-finite values were seen (the last FINITE record is restored) *)
+TFallback == IsEvent("fallback") /\ (Ev.i + 2 = 0 \/ (nanSeen /\ Ev.i + 2 < 0)) /\ Len(hist) + 1 + Ev.i >= 1
+             /\ FallbackTo(Len(hist) + 1 + Ev.i) /\ Ev.x = resultPoint'
 TToFinal == IsEvent("to_final") /\ ToFinal
 TResultCalc == IsEvent("result_calc") /\ (ResultCalc \/ ResultCalcNaN) /\ LensAre
 TResultCalcFail == IsEvent("result_calc_fail") /\ phase = "result_calc" /\ LateFail /\ LensAre
